@@ -192,6 +192,170 @@ mod cand {
     }
 }
 
+
+// ------------------------------------------------------------------------------------------------
+// TURN: a real TurnClient / STUN probe (reached through PeerConnection gathering) talks to a
+// scripted server owned by the harness; the requests it sends are the observed outputs
+// ------------------------------------------------------------------------------------------------
+mod turncap {
+    use super::*;
+    use rustrtc::{IceServer, PeerConnection, RtcConfiguration};
+    use std::sync::{Arc, Mutex};
+    use stun::attributes::*;
+    use stun::message::{Getter, Message, Setter, CLASS_ERROR_RESPONSE, CLASS_REQUEST, CLASS_SUCCESS_RESPONSE, METHOD_ALLOCATE, METHOD_BINDING, MessageType};
+
+    pub struct Captured { pub bytes: Vec<u8> }
+
+    async fn serve(sock: Arc<tokio::net::UdpSocket>, realm: String, nonce: String, user: String, pass: String, relayed: SocketAddr, mapped: SocketAddr, log: Arc<Mutex<Vec<Captured>>>) {
+        let mut buf = [0u8; 2048];
+        loop {
+            let Ok((n, from)) = sock.recv_from(&mut buf).await else { return };
+            let bytes = buf[..n].to_vec();
+            log.lock().unwrap().push(Captured { bytes: bytes.clone() });
+            let mut m = Message::new();
+            m.raw = bytes;
+            if m.decode().is_err() || m.typ.class != CLASS_REQUEST { continue; }
+            let mut resp = Message::new();
+            resp.transaction_id = m.transaction_id;
+            let key = stun::integrity::MessageIntegrity::new_long_term_integrity(user.clone(), realm.clone(), pass.clone());
+            if m.typ.method == METHOD_BINDING {
+                resp.typ = MessageType::new(METHOD_BINDING, CLASS_SUCCESS_RESPONSE);
+                resp.write_header();
+                stun::xoraddr::XorMappedAddress { ip: mapped.ip(), port: mapped.port() }.add_to(&mut resp).unwrap();
+                stun::fingerprint::FINGERPRINT.add_to(&mut resp).unwrap();
+            } else if m.typ.method == METHOD_ALLOCATE && !m.contains(ATTR_MESSAGE_INTEGRITY) {
+                resp.typ = MessageType::new(METHOD_ALLOCATE, CLASS_ERROR_RESPONSE);
+                resp.write_header();
+                stun::error_code::ErrorCodeAttribute { code: stun::error_code::ErrorCode(401), reason: b"Unauthorized".to_vec() }.add_to(&mut resp).unwrap();
+                stun::textattrs::TextAttribute::new(ATTR_REALM, realm.clone()).add_to(&mut resp).unwrap();
+                stun::textattrs::TextAttribute::new(ATTR_NONCE, nonce.clone()).add_to(&mut resp).unwrap();
+            } else {
+                resp.typ = MessageType::new(m.typ.method, CLASS_SUCCESS_RESPONSE);
+                resp.write_header();
+                stun::xoraddr::XorMappedAddress { ip: relayed.ip(), port: relayed.port() }.add_to_as(&mut resp, ATTR_XOR_RELAYED_ADDRESS).unwrap();
+                stun::xoraddr::XorMappedAddress { ip: from.ip(), port: from.port() }.add_to(&mut resp).unwrap();
+                resp.add(ATTR_LIFETIME, &600u32.to_be_bytes());
+                key.add_to(&mut resp).unwrap();
+                stun::fingerprint::FINGERPRINT.add_to(&mut resp).unwrap();
+            }
+            let _ = sock.send_to(&resp.raw, from).await;
+        }
+    }
+
+    struct Scenario { user: &'static str, pass: &'static str, realm: &'static str, nonce: &'static str, relayed: &'static str, mapped: &'static str }
+
+    async fn run_one(sc: &Scenario) -> (Vec<Captured>, Vec<IceCandidate>) {
+        let sock = Arc::new(tokio::net::UdpSocket::bind("127.0.0.1:0").await.unwrap());
+        let port = sock.local_addr().unwrap().port();
+        let log = Arc::new(Mutex::new(vec![]));
+        let srv = tokio::spawn(serve(sock.clone(), sc.realm.into(), sc.nonce.into(), sc.user.into(), sc.pass.into(), sc.relayed.parse().unwrap(), sc.mapped.parse().unwrap(), log.clone()));
+        let mut cfg = RtcConfiguration::default();
+        cfg.ice_servers.push(IceServer::new(vec![format!("turn:127.0.0.1:{port}?transport=udp")]).with_credential(sc.user, sc.pass));
+        cfg.ice_servers.push(IceServer::new(vec![format!("stun:127.0.0.1:{port}")]));
+        cfg.stun_timeout = std::time::Duration::from_millis(1500);
+        let pc = PeerConnection::new(cfg);
+        let _dc = pc.create_data_channel("c", None);
+        let _ = pc.create_offer().await;
+        let t0 = std::time::Instant::now();
+        while pc.ice_transport().gather_state() != rustrtc::IceGathererState::Complete && t0.elapsed() < std::time::Duration::from_secs(8) {
+            tokio::time::sleep(std::time::Duration::from_millis(20)).await;
+        }
+        let cands = pc.ice_transport().local_candidates();
+        pc.close();
+        drop(pc);
+        tokio::time::sleep(std::time::Duration::from_millis(150)).await;
+        srv.abort();
+        let caps = std::mem::take(&mut *log.lock().unwrap());
+        (caps, cands)
+    }
+
+    fn text(m: &Message, t: AttrType) -> Option<Vec<u8>> { m.get(t).ok() }
+
+    pub fn cases(out: &mut Out, summary: &mut serde_json::Map<String, serde_json::Value>) {
+        let scenarios = [
+            Scenario { user: "alice", pass: "secret", realm: "example.org", nonce: "f//499k954d6OL34oL9FSTvy64sA", relayed: "198.51.100.7:49152", mapped: "203.0.113.9:40000" },
+            Scenario { user: "user:with:colons", pass: "p@ss:w0rd", realm: "r e a l m", nonce: "n", relayed: "[2001:db8::77]:50000", mapped: "[2001:db8::9]:40001" },
+            Scenario { user: "üser-ж", pass: "", realm: "exämple.org", nonce: "0123456789abcdef0123456789abcdef0123456789abcdef", relayed: "192.0.2.200:65535", mapped: "192.0.2.201:1" },
+            Scenario { user: "u", pass: "a-very-long-password-a-very-long-password-a-very-long-password-a-very-long-password", realm: "x", nonce: "abc", relayed: "10.1.2.3:1024", mapped: "10.9.9.9:9" },
+        ];
+        let rt = tokio::runtime::Builder::new_multi_thread().worker_threads(2).enable_all().build().unwrap();
+        let mut seen: BTreeMap<String, u64> = BTreeMap::new();
+        for sc in &scenarios {
+            let (caps, cands) = rt.block_on(run_one(sc));
+            let scj = json!({"user": sc.user, "realm": sc.realm, "nonce": sc.nonce, "relayed": sc.relayed, "mapped": sc.mapped});
+            let key = md5(format!("{}:{}:{}", sc.user, sc.realm, sc.pass).as_bytes());
+            let mut auth_alloc = 0;
+            for c in &caps {
+                let mut m = Message::new();
+                m.raw = c.bytes.clone();
+                let mut fail = None;
+                let mut term = "-".to_string();
+                let mut what = "other".to_string();
+                if let Err(e) = m.decode() { fail = Some(format!("webrtc-rs stun rejects a packet the TURN/STUN client sent: {e}")); }
+                else {
+                    what = format!("{}", m.typ);
+                    if let Err(e) = rfc_read(&c.bytes) { fail = Some(format!("not well-formed: {e}")); }
+                    if m.contains(ATTR_FINGERPRINT) { if let Err(e) = stun::fingerprint::FINGERPRINT.check(&m) { fail = Some(format!("FINGERPRINT check fails: {e}")); } }
+                    if m.contains(ATTR_MESSAGE_INTEGRITY) {
+                        // long-term credentials: the key must be MD5(user:realm:pass) (RFC 5389 15.4), checked by the second implementation
+                        let li = stun::integrity::MessageIntegrity::new_long_term_integrity(sc.user.into(), sc.realm.into(), sc.pass.into());
+                        if li.0 != key { fail = Some("harness md5 and webrtc-rs long-term key differ".into()); }
+                        if let Err(e) = li.check(&mut m) { fail = Some(format!("MESSAGE-INTEGRITY does not verify under the long-term key MD5(user:realm:pass): {e}")); }
+                        if text(&m, ATTR_USERNAME).as_deref() != Some(sc.user.as_bytes()) || text(&m, ATTR_REALM).as_deref() != Some(sc.realm.as_bytes()) || text(&m, ATTR_NONCE).as_deref() != Some(sc.nonce.as_bytes()) {
+                            fail = Some("authenticated request does not carry USERNAME / REALM / NONCE of the challenge".into());
+                        }
+                    }
+                    if m.typ.method == METHOD_BINDING && m.typ.class == CLASS_REQUEST {
+                        term = format!("KProbe {} {}", bytes_term(&m.transaction_id.0), bytes_term(&c.bytes));
+                    }
+                    if m.typ.method == stun::message::METHOD_REFRESH && m.typ.class == CLASS_REQUEST && m.get(ATTR_LIFETIME).ok() == Some(vec![0, 0, 0, 0]) {
+                        if !m.contains(ATTR_MESSAGE_INTEGRITY) { fail = Some("Refresh(0) without MESSAGE-INTEGRITY".into()); }
+                        term = format!("KTurnDestroy {} {} {} {} {} {}", bytes_term(&m.transaction_id.0), bytes_term(sc.user.as_bytes()), bytes_term(sc.realm.as_bytes()),
+                            bytes_term(sc.nonce.as_bytes()), bytes_term(sc.pass.as_bytes()), bytes_term(&c.bytes));
+                    }
+                    if m.typ.method == METHOD_ALLOCATE && m.typ.class == CLASS_REQUEST {
+                        if m.get(ATTR_REQUESTED_TRANSPORT).ok() != Some(vec![17, 0, 0, 0]) { fail = Some("Allocate without REQUESTED-TRANSPORT = UDP(17)".into()); }
+                        if !m.contains(ATTR_FINGERPRINT) { fail = Some("Allocate without FINGERPRINT".into()); }
+                        if m.contains(ATTR_MESSAGE_INTEGRITY) {
+                            auth_alloc += 1;
+                            term = format!("KTurnAuth {} {} {} {} {} {}", bytes_term(&m.transaction_id.0), bytes_term(sc.user.as_bytes()), bytes_term(sc.realm.as_bytes()),
+                                bytes_term(sc.nonce.as_bytes()), bytes_term(sc.pass.as_bytes()), bytes_term(&c.bytes));
+                        } else {
+                            term = format!("KTurnPlain {} {}", bytes_term(&m.transaction_id.0), bytes_term(&c.bytes));
+                        }
+                    }
+                }
+                *seen.entry(what.clone()).or_default() += 1;
+                out.push(Case { term, desc: json!({"what": "packet captured from rustrtc's TURN/STUN client", "type": what, "bytes": hex(&c.bytes), "scenario": scj}),
+                    oracle_fail: fail, known: None, nontrivial: true, key: format!("cap{}", hex(&c.bytes)), kind: "turn-capture".into() });
+            }
+            // public effects: the relay candidate carries the XOR-RELAYED-ADDRESS, the srflx candidate the XOR-MAPPED-ADDRESS the server sent
+            let relayed: SocketAddr = sc.relayed.parse().unwrap();
+            let mapped: SocketAddr = sc.mapped.parse().unwrap();
+            let relay = cands.iter().find(|c| c.typ == IceCandidateType::Relay);
+            let srflx = cands.iter().find(|c| c.typ == IceCandidateType::ServerReflexive);
+            let mut fail = None;
+            if auth_alloc == 0 { fail = Some("no authenticated Allocate request was captured".into()); }
+            match relay { Some(c) => { if !sockaddr_eq(&c.address, &relayed) { fail = Some(format!("relay candidate {} but the server granted {}", c.address, relayed)); }
+                    // RFC 8445 5.1.2.2: relayed candidates have type preference 0
+                    if c.priority as u64 != (0u64 << 24) + (65535 << 8) + 255 { fail = Some(format!("relay candidate priority {}", c.priority)); } }
+                None => fail = Some("no relay candidate after a successful allocation".into()) }
+            out.push(Case { term: relay.map(|c| format!("KPrioT IceCandidateType_Relay {} {}", c.component, c.priority)).unwrap_or("-".into()),
+                desc: json!({"what": "relay candidate gathered through the scripted TURN server", "scenario": scj, "candidates": cands.iter().map(|c| c.to_sdp()).collect::<Vec<_>>()}),
+                oracle_fail: fail, known: None, nontrivial: true, key: format!("relay{}", sc.relayed), kind: "turn-capture".into() });
+            let mut fail = None;
+            match srflx { Some(c) => { if !sockaddr_eq(&c.address, &mapped) { fail = Some(format!("srflx candidate {} but the server reported {}", c.address, mapped)); }
+                    if c.priority as u64 != (100u64 << 24) + (65535 << 8) + 255 { fail = Some(format!("srflx candidate priority {}, RFC 8445 recommends type preference 100", c.priority)); } }
+                None => fail = Some("no server-reflexive candidate after a Binding success".into()) }
+            out.push(Case { term: srflx.map(|c| format!("KPrioT IceCandidateType_ServerReflexive {} {}", c.component, c.priority)).unwrap_or("-".into()),
+                desc: json!({"what": "srflx candidate gathered through the scripted STUN server", "scenario": scj}),
+                oracle_fail: fail, known: None, nontrivial: true, key: format!("srflx{}", sc.mapped), kind: "turn-capture".into() });
+        }
+        summary.insert("turn capture".into(), json!({"scenarios": scenarios.len(), "captured packet types": seen}));
+        let _ = (Getter::get_from as fn(&mut stun::xoraddr::XorMappedAddress, &Message) -> _, );
+    }
+}
+
 const COOKIE: u32 = 0x2112_A442;
 
 fn hex(b: &[u8]) -> String {
@@ -809,6 +973,7 @@ fn main() {
     prio_cases(&mut out, &mut r, &mut dist);
     stun_cases(&mut out, &mut r, thorough, &mut summary);
     cand::cases(&mut out, &mut r, thorough, &mut summary);
+    turncap::cases(&mut out, &mut summary);
     summary.insert("priorities".into(), json!(dist));
     let _ = (IceCandidateType::Host, hmac_sha1(b"", b""));
     out.finish(json!({"generator": summary}));
